@@ -178,9 +178,9 @@ const (
 
 type aVal struct {
 	K     aKind
-	Mod8  int  // residue of the index modulo 8, -1 unknown
-	LtLen bool // idx < len established
-	Delta int  // for aIdx: constant added since the last loop-head value (used for the fix-up rule)
+	Mod8  int   // residue of the index modulo 8, -1 unknown
+	LtLen bool  // idx < len established
+	Delta int   // for aIdx: constant added since the last loop-head value (used for the fix-up rule)
 	From  aKind // for aHalf: what was halved
 }
 
